@@ -3,7 +3,9 @@ C06 — the key-value API is linearizable; conditional writes are atomic.
 ONLY property theorems and non-vacuity examples; helper lemmas are in ImmuModel/Mvcc/Proofs/Lin.lean.
 Model: ImmuModel/Mvcc/Linearize.lean — pkg/database operations decomposed into the atomic steps the code performs
 (writes: precommit with the preconditions evaluated inside the `s.mutex` critical section ; commit ; wait indexed.
-reads: c := committed ; wait idxTs ≥ c ; observe the index).  The schedule (`List DbStep`) is arbitrary.
+reads: c := committed ; wait idxTs ≥ c ; observe the index;  `GetAll`: c := committed ; wait ; take a snapshot ; ONE STEP PER
+KEY looking the key up in the index the code passes to `d.get` (extracted: the snapshot) ; return).  The schedule (`List DbStep`)
+is arbitrary.
 -/
 import ImmuModel.Mvcc.Spec
 import ImmuModel.Mvcc.Proofs.Lin
@@ -85,6 +87,28 @@ theorem linearizable (cfg : Cfg) (n : Nat) (sched : List DbStep) (hnc : noCompac
   · intro a ha b hb; exact orderOK_of_inv cfg d hinv a b ha hb
   · intro r hr; exact linPoint_in_interval cfg d hinv r hr
 
+/-- **a multi-key read returns the state of ONE instant**, for every schedule without a completed index compaction: whatever a
+read (`GetAll`, `Scan`, `History`, `Count`; also a `Get` that met no reference) answers is the answer of the sequential object on
+the log prefix of ONE version `v` — the same `v` for every key of the answer — and `v` lies between the committed frontier at
+the invocation and the committed frontier at the response.  For `GetAll` this is a statement about the DECOMPOSED execution
+(snapshot step, one lookup step per key, return step, with arbitrary commits and indexing in between): it holds because every
+lookup reads the snapshot (`LinAux.getAllSrc_snap`, i.e. the extracted fact `Gen.dbGetAllLooksUpInSnapshot`); with lookups on
+the live index it is false (`getall_needs_the_snapshot`). -/
+theorem multi_key_read_one_instant (cfg : Cfg) (n : Nat) (sched : List DbStep) (hnc : noCompact sched)
+    (r : OpRec) (q : Query) (v : Nat) (res : QRes)
+    (hr : r ∈ (dbRun cfg (dbInit n) sched).hist) (hop : r.op = .read q) (hout : r.out = .answer v res) :
+    res = evalQuery cfg (dbRun cfg (dbInit n) sched).log v q ∧
+    cmtAt (dbRun cfg (dbInit n) sched) r.inv ≤ v ∧ v ≤ cmtAt (dbRun cfg (dbInit n) sched) r.resp := by
+  have hinv := dinv_run cfg sched _ hnc (dinv_init cfg n)
+  obtain ⟨ht, hres⟩ := hinv.hist r hr
+  unfold ResOK at hres
+  rw [hop, hout] at hres
+  simp only [] at hres
+  obtain ⟨_, _, h3⟩ := ht
+  rw [hout] at h3
+  simp only [] at h3
+  exact ⟨hres.2, h3⟩
+
 /-! ## finding: `Get` through a re-pointed reference is not atomic -/
 
 def k1 : Bytes := [0, 107, 49]
@@ -107,6 +131,17 @@ theorem ref_get_torn :
     let d := dbRun tcfg (dbInit 2) tsched
     d.hist.getLast?.map (·.out) = some (.answer2 3 5 (.entry k1 ⟨5, [0, 9], false⟩ 3)) ∧
     ∀ v, v ≤ 5 → evalQuery tcfg d.log v (.get kr) ≠ .entry k1 ⟨5, [0, 9], false⟩ 3 := by decide
+
+/-! ## why `GetAll` must look every key up in its snapshot -/
+
+/-- the loop of `GetAll` with the lookups on the LIVE index (`getAllSrc` when the code does not pass the snapshot to `d.get`):
+k1 is looked up when the index is at ts 1, then tx 2 — which rewrites k1 AND k2 — is indexed, then k2 is looked up.
+The collected answer (k1 of tx 1, k2 of tx 2) is the answer of `GetAll [k1, k2]` at NO version of the log. -/
+theorem getall_needs_the_snapshot :
+    let log : Log := [[⟨k1, [0, 1], false⟩, ⟨k2, [0, 1], false⟩], [⟨k1, [0, 2], false⟩, ⟨k2, [0, 2], false⟩]]
+    let torn := getAllLookup log 2 k2 (getAllLookup log 1 k1 [])
+    torn = [(k1, ⟨1, [0, 1], false⟩), (k2, ⟨2, [0, 2], false⟩)] ∧
+    ∀ v, v ≤ 2 → getAllEntries log v [k1, k2] ≠ torn := by decide
 
 /-! ## finding: an index compaction throws the index back while `WaitForIndexingUpto` still reports the old ts -/
 
@@ -139,5 +174,16 @@ example :
         .invoke 0 (.write [⟨k1, [0, 8], false⟩] [.notModifiedAfter k1 1]), .precommit 0, .sync 2, .index 2, .wdone 0,
         .invoke 1 (.read (.get k1)), .rdone 1 0])
     d.hist.map (·.out) = [.applied 1, .rejected 1, .applied 2, .answer 2 (.entry k1 ⟨2, [0, 8], false⟩ 0)] := by decide
+
+/-- a multi-key transaction is committed AND indexed between two lookups of one `GetAll` (snapshot taken at ts 1, k1 looked up,
+tx 2 rewrites k1 and k2 and its `Set` returns, k2 looked up): the answer is the state of ts 1 for both keys. -/
+example :
+    let d := dbRun tcfg (dbInit 2)
+      (wr [⟨k1, [0, 1], false⟩, ⟨k2, [0, 1], false⟩] 1 ++
+       [.invoke 1 (.read (.getAll [k1, k2])), .rdone 1 0, .rdone 1 0] ++
+       wr [⟨k1, [0, 2], false⟩, ⟨k2, [0, 2], false⟩] 2 ++
+       [.rdone 1 0, .rdone 1 0])
+    d.idx = 2 ∧
+    d.hist.map (·.out) = [.applied 1, .applied 2, .answer 1 (.entries [(k1, ⟨1, [0, 1], false⟩), (k2, ⟨1, [0, 1], false⟩)])] := by decide
 
 end ImmuModel.Props.C06
